@@ -247,7 +247,7 @@ def shard(ctx, n, sub):
 
 
 def main(ctx):
-    n = ctx.pick(150, 6000)
+    n = ctx.pick(150, 40000)
     ctx.shards("shard", [{"n": n, "sub": s} for s in range(16)])
     ctx.require("pairs_compared", 5000)
     ctx.require("roundtrips", 1000)
